@@ -45,7 +45,7 @@ class C01(Check):
     ASSUMPTIONS = ['texts the format cannot express are excluded exactly as listed in the property (plus header values '
                    'with edge blanks, trailing backslash or the {{}} token, and header keys equal to a table name)',
                    'enum columns are compared as label text; unicode input columns must come back as byte strings at least as wide']
-    REQUIRED_COUNTERS = ('record_layout_view_permuted', 'record_layout_aligned', 'refusals_seen', 'zero_row_tables', 'float_cells_compared', 'string_cells_compared',
+    REQUIRED_COUNTERS = ('array_columns_longer_than_1000', 'writes_with_long_comment_lines', 'record_layout_view_permuted', 'record_layout_aligned', 'refusals_seen', 'zero_row_tables', 'float_cells_compared', 'string_cells_compared',
                          'table_api_roundtrips', 'hdr_values_compared')
 
     def setup(self):
@@ -81,7 +81,7 @@ class C01(Check):
             bad = rng.choice(REFUSED)
             cols = M.gen_cols(rng, rng.randint(0, 3), allow_strings=True)
             pos = rng.randint(0, len(cols))
-            return {'kind': cls, 'bad': bad, 'as_array': rng.random() < 0.4, 'pos': pos, 'cols': cols,
+            return {'kind': cls, 'bad': bad, 'as_array': rng.random() < 0.4, 'pos': pos, 'cols': cols, 'with_enums': rng.random() < 0.3,
                     'nrows': rng.randint(0, 3), 'name': M.ident(rng, 2, 6)}
         ntab = rng.choice([1, 1, 2, 3, 4]) if cls not in ('table_api',) else rng.choice([1, 2, 3])
         enums = {}
@@ -136,6 +136,11 @@ class C01(Check):
                 nrows = rng.choice([1, 1, 2, 3, 5, 8]) if cls != 'mixed' else rng.randint(0, 8)
             extreme = cls == 'numeric_extremes' or rng.random() < 0.2
             torture = cls == 'string_torture' or rng.random() < 0.2
+            if cls == 'numeric_extremes' and rng.random() < 0.12 and all(c['name'] != 'wide' for c in cols):
+                # one long array column (a spectrum per row): lengths around the sizes at which array-to-text routines
+                # start to abbreviate
+                cols.insert(rng.randint(0, len(cols)), {'name': 'wide', 'kind': rng.choice(M.NUMKINDS), 'width': 0,
+                                                        'alen': rng.choice([999, 1000, 1001, 1024, 2500])})
             if cls == 'numeric_extremes':
                 for c in cols:
                     if c['kind'] in ('S', 'U') and rng.random() < 0.7:
@@ -161,13 +166,22 @@ class C01(Check):
             tab = {'name': names[t], 'cols': cols, 'rows': rows}
             M.fix_last_column(tab)
             tables.append(tab)
-        # the writer keys enum declarations by *column name* for the whole file: a non-enum column elsewhere must
-        # not carry the name of an enum column (API limitation, not part of the property)
+        # the writer keys enum declarations by *column name* for the whole file: a *string* column elsewhere must not carry the
+        # name of an enum column (API limitation, not part of the property).  A numeric column may: it is declared by its own
+        # type - so in a third of the multi-table files one numeric column deliberately takes the name of an enum column.
         enum_names = {c['name'] for t in tables for c in t['cols'] if c['kind'] == 'enum'}
+        if enum_names and len(tables) > 1 and rng.random() < 0.35:
+            en = sorted(enum_names)[0]
+            for t in tables:
+                if all(c['name'] != en for c in t['cols']):
+                    num = [c for c in t['cols'] if c['kind'] in M.NUMKINDS]
+                    if num:
+                        num[0]['name'] = en
+                        break
         for t in tables:
             taken = {c['name'].lower() for c in t['cols']}
             for c in t['cols']:
-                if c['kind'] != 'enum' and c['name'] in enum_names:
+                if c['kind'] in ('S', 'U') and c['name'] in enum_names:
                     k = 0
                     while ('%s_n%d' % (c['name'], k)).lower() in taken:
                         k += 1
@@ -213,7 +227,24 @@ class C01(Check):
                 'single_not_list': ntab == 1 and rng.random() < 0.5,
                 'default_names': cls == 'mixed' and rng.random() < 0.15,
                 # memory layout of the record arrays handed to the writer (field order is the document's in every layout)
-                'field_layout': rng.choice(['packed', 'packed', 'packed', 'view_permuted', 'aligned'])}
+                'field_layout': rng.choice(['packed', 'packed', 'packed', 'view_permuted', 'aligned']),
+                # the free-text comments= argument of the writer: absent, one line of text, a list of lines (some long,
+                # some containing words that mean something to the format); they must never become content
+                'comments': self._comments(rng, names)}
+
+    @staticmethod
+    def _comments(rng, names):
+        m = rng.randint(0, 4)
+        if m <= 1:
+            return None
+        words = ['the', 'quantitative', 'typedef', 'struct', 'enum', '{', '}', ';', 'mjd', '54579', names[0], names[-1].upper(),
+                 'reference:', 'A&A', '123,', '45', '(2010)', 'x' * 30, '#', 'seeing', '1.4"']
+
+        def line(n):
+            return ' '.join(rng.choice(words) for _ in range(n)).replace('"', '')
+        if m == 2:
+            return line(rng.randint(1, 12))
+        return [line(rng.choice([1, 5, 20, 40, 60])) for _ in range(rng.randint(1, 4))]
 
     def _names(self, cls, rng, ntab):
         names = []
@@ -258,8 +289,13 @@ class C01(Check):
         bad = ('bad_col', case['bad'], (2,)) if case['as_array'] else ('bad_col', case['bad'])
         dt.insert(min(case['pos'], len(dt)), bad)
         a = np.zeros(case['nrows'], dtype=dt)
+        kw = {}
+        if case.get('with_enums'):
+            # an enums= dictionary whose key is the name of the unsupported column must not turn it into a label column
+            kw['enums'] = {'bad_col': ('BAD_T', ['ZERO', 'ONE', 'TWO'])}
+            out.count('refusals_with_enum_key_on_the_column')
         try:
-            par = self.Y.write_ndarray_to_yanny(fn, a, structnames=case['name'])
+            par = self.Y.write_ndarray_to_yanny(fn, a, structnames=case['name'], **kw)
         except Exception as e:
             out.checks += 1
             out.count('refusals_seen')
@@ -306,6 +342,7 @@ class C01(Check):
 
     def run_ndarray(self, case, out, fn):
         arrays = [M.build_array(t, case['byteorder']) for t in case['tables']]
+        out.count('array_columns_longer_than_1000', sum(1 for t in case['tables'] for c in t['cols'] if c['alen'] > 1000))
         fl = case.get('field_layout', 'packed')
         if fl != 'packed':
             arrays = [M.relayout_fields(a, fl, seed=k) for k, a in enumerate(arrays)]
@@ -329,6 +366,10 @@ class C01(Check):
                 names_arg = names[0]
         else:
             data = arrays
+        if case.get('comments') is not None:
+            kw['comments'] = case['comments']
+            out.count('writes_with_comments')
+            out.count('writes_with_long_comment_lines', isinstance(case['comments'], list) and any(len(c) > 100 for c in case['comments']))
         par = self.Y.write_ndarray_to_yanny(fn, data, structnames=names_arg, enums=M.writer_enums(case), hdr=hdr, **kw)
         out.expect(os.path.exists(fn), 'written', 'no file was written')
         self._compare_all(case, out, par, 'returned-object')
